@@ -11,7 +11,7 @@ LEVEL_TEXT = ("Theorems (Lean 4, any linearly ordered field): on a live supply t
               "(v,i) and must agree to 1e-9, one more model sweep must reproduce (v,i) within the solver's exit test, and the "
               "documented laws are evaluated exactly on every returned row (the failing-input search). End to end (Props/C01Conv): for whatever solvePhase returns, every single-supply row, every Source row and the PMux row deviates from its documented voltage law by at most atol + vtol*|law| and from its current law by at most atol + itol*|law| (`solve_row_voltage_law`, `solve_row_current_law`, `solve_source_row_*`, `solve_mux_row_laws`; the current law is evaluated at the once-more-swept supply voltage, which is within vtol of the row's Vin - stated, not hidden), and exactly in an exact steady state (`steady_row_exact`). Partial: negative Source "
               "with series resistance (finding F01) is excluded by hypothesis and reported as KNOWN-FINDING.")
-LEVEL_NOTE = "Proof covers the law level; tree-level clauses are checked by correspondence + oracle on generated systems."
+LEVEL_NOTE = "Law level, row level and the end-to-end tolerance statement are theorems about the model; that the model is the code is differential testing (certificate correspondence + oracle on generated systems)."
 MODULE = "SysLoss.Props.C01"
 MODULES = ["SysLoss.Props.C01", "SysLoss.Props.C01Conv"]
 THEOREMS = ["SysLoss.C01." + t for t in (
